@@ -4,7 +4,15 @@
 (G) CondAsm_Gen: transition cover of the machine's state graph + simulated long grammatical programs,
     rendered (several spellings per condition kind) and replayed into the real asl.
 (V) CondAsm_Trace: `stmt` events of corpus runs validated against the same operators.
+(V2) AsCore_Trace: the same corpus statements validated against CondAsm x AddrBook composed, with the cross-machine
+    claims SkippedIsInert / RecordedIsInert / IfFamilyIsAddressNeutral.
+Variants rendered per behaviour: balanced with closers; left open (MissEndif expected); wrapped in a macro body that
+ends with EXITM inside the open constructs (RestoreIFs: no error, nothing behind EXITM assembled).
+True conditions are rendered with positive, negative and large values ("true = not 0").
 Verdict-bearing: marker bytes / symbol definitions of selected branches, error-or-not, no crash.
+Mutations of the real code tried: IFB argument loop (found as defect), lone ELSECASE (found as defect), EXITM without
+RestoreIFs (caught), ELSECASE in a skipped region / IFB last-argument-only / ELSEIF negative condition (independent
+seeds, caught; the last after adding negative true values); corrupted and removed stmt events are rejected.
 """
 import os
 
@@ -48,9 +56,13 @@ def complete(beh):
     return ["ENDIF" if c == "I" else "ENDCASE" for c in reversed(ctx)]
 
 
-def render(beh, r, balance=True):
-    """beh: list of steps {s:{k,...}, ifasm, d, errs}.  Returns (source text, expected dict)."""
+def render(beh, r, balance=True, exitm=False):
+    """beh: list of steps {s:{k,...}, ifasm, d, errs}.  Returns (source text, expected dict).
+    exitm=True: the skeleton is the body of a macro (global symbols) invoked once and ends with EXITM instead of
+    the balancing closers (as.c ExpandEXITM -> RestoreIFs); only used where TLC says the EXITM is executed."""
     lines = list(PREAMBLE)
+    if exitm:
+        lines += ["wrap\tmacro {GLOBALSYMBOLS}"]
     ifasm_before = True
     markers = []      # (pos, selected)
     typestack = []
@@ -101,9 +113,11 @@ def render(beh, r, balance=True):
             else:
                 lines.append("m%d:\tdb %d" % (i, i))
         ifasm_before = st["ifasm"]
-    closers = complete(beh) if balance else []
+    closers = complete(beh) if (balance and not exitm) else []
     for c in closers:
         lines.append("\t" + c.lower())
+    if exitm:
+        lines += ["\texitm", "\tdb 99", "\tendm", "\twrap"]      # the db 99 behind EXITM must never be assembled
     if wellformed and balance:
         for (i, sel) in markers:
             lines.append("\tdb 100+DEFINED(m%d)" % i)
@@ -285,6 +299,10 @@ def main(tier):
         if all(st["errs"] == 0 for st in beh) and complete(beh) and rr.random() < 0.2:
             src2, exp2 = render(beh, rr, balance=False)      # left open: MissEndif expected
             jobs.append((beh, src2, exp2))
+        if beh and all(st["errs"] == 0 for st in beh) and complete(beh) and beh[-1].get("exitm") == "clean" \
+                and rr.random() < 0.5:
+            src3, exp3 = render(beh, rr, balance=True, exitm=True)   # EXITM inside open IFs: stack restored
+            jobs.append((beh, src3, exp3))
 
     with Phase('replay %d programs' % len(jobs)):
         results = aslrun.assemble_many(bld, [{"sources": {"a.asm": src, "incx.inc": "; empty\n"}, "opts": ["-q"]}
